@@ -46,6 +46,13 @@ func genLockCfg(t *rapid.T, focus string) LockCfg {
 	// the difference between the two delays is biased towards 0 and towards values a later block time can hit exactly
 	// (an exit at T1 and a plain unlock at T2 then mature at the same instant)
 	c.ExitSec = c.UnlockSec + rapid.OneOf(rapid.SampledFrom([]int{0, 0, 1, 2, 5, 6, 10}), rapid.IntRange(0, 40)).Draw(t, "exitExtra")
+	// a quarter of the chains start high: just below 64 halving intervals (the emission is 0 from there on) or far beyond
+	switch rapid.IntRange(0, 7).Draw(t, "start") {
+	case 0:
+		c.Start = 64*c.Halving - int64(rapid.IntRange(1, 6).Draw(t, "startBelow"))
+	case 1:
+		c.Start = rapid.SampledFrom([]int64{1000, 1 << 33}).Draw(t, "startFar")
+	}
 	nt := rapid.IntRange(1, 3).Draw(t, "ntokens")
 	for i := 0; i < nt; i++ {
 		tc := TokCfg{Weight: rapid.SampledFrom([]uint64{1, 1, 2, 10, 100, 1000, 0}).Draw(t, "weight"),
